@@ -51,7 +51,7 @@ def main():
     with cf.ThreadPoolExecutor(j) as pool:
         for m, rc, out in pool.map(run_one, ms):
             exp = m.get("expect", 1)
-            ok = rc == exp
+            ok = rc in exp if isinstance(exp, list) else rc == exp
             bad += not ok
             print("%s %-4s %-45s rc=%s expected=%s" % ("ok  " if ok else "BAD ", m["property"], m["name"], rc, exp))
             if not ok or "-v" in sys.argv:
